@@ -53,6 +53,161 @@ def fold_helper(ctx, model, method):
     return out, reg, ref, f
 
 
+class _Captured(Exception):
+    def __init__(self, cls, x, y):
+        self.cls, self.x, self.y = cls, x, y
+
+
+def fold_nodes(ctx, model, method, nv, order):
+    """the node-selecting helper folded on CONCRETE index data: volume i of a decreasing list is the number 1000 - i, its
+    frequency 2000 + i; the constructor of the interpolant captures the nodes it is given.  -> (cls, x cells, y cells)"""
+    from ..sym import ArrV, LIB, lib_stack
+    import itertools as _it
+
+    def capture(cls):
+        def f(ev, a, k):
+            raise _Captured(cls, a[0], a[1])
+        return f
+
+    def flip(ev, a, k):
+        x = a[0]
+        if not (isinstance(x, ArrV) and len(x.shape) == 1):
+            raise AnalysisError("numpy.flip of something that is not a node vector")
+        ax = k.get("axis", a[1] if len(a) > 1 else None)
+        if ax is not None and int(as_sym(ax)) not in (0, -1):
+            raise RaisedV("AxisError")
+        n_ = x.shape[0]
+        return ArrV(0, (n_,), cells={(i,): x.get((n_ - 1 - i,)) for i in range(n_)})
+
+    def log(ev, a, k):
+        x = a[0]
+        if isinstance(x, ArrV):
+            return ArrV(x.batch, x.shape, cells={kk: sp.Function("LOGN")(c) for kk, c in x.cells.items()})
+        return sp.log(as_sym(x))
+
+    def ceil(ev, a, k):
+        return sp.ceiling(as_sym(a[0]))
+
+    def floor(ev, a, k):
+        return sp.floor(as_sym(a[0]))
+
+    def int_(ev, a, k):
+        v = as_sym(a[0])
+        if not v.is_number:
+            raise AnalysisError("int() of a non-constant in the node selection")
+        return sp.Integer(int(v))
+
+    def linspace(ev, a, k):
+        lo, hi, num = as_sym(a[0]), as_sym(a[1]), int(as_sym(a[2] if len(a) > 2 else k.get("num", 50)))
+        if num < 0:
+            raise RaisedV("ValueError")
+        vals = [lo + (hi - lo) * sp.Rational(i, num - 1) for i in range(num)] if num > 1 else ([lo] if num == 1 else [])
+        return ArrV(0, (len(vals),), cells={(i,): v for i, v in enumerate(vals)})
+
+    def rint(ev, a, k):
+        def one(v):
+            v = sp.nsimplify(v, rational=True)
+            fl = sp.floor(v)
+            d = v - fl
+            return fl if d < sp.Rational(1, 2) else (fl + 1 if d > sp.Rational(1, 2) else (fl if fl % 2 == 0 else fl + 1))
+        x = a[0]
+        if isinstance(x, ArrV):
+            return ArrV(x.batch, x.shape, cells={kk: one(c) for kk, c in ((key, x.get(key)) for key in _it.product(*[range(d) for d in x.shape]))})
+        return one(as_sym(x))
+
+    def astype(ev, a, k):
+        x = a[0]
+        if isinstance(x, ArrV):
+            tgt = repr(a[1] if len(a) > 1 else k.get("dtype"))
+            if "int" in tgt:
+                return ArrV(x.batch, x.shape, cells={key: sp.Integer(int(x.get(key))) for key in _it.product(*[range(d) for d in x.shape])})
+            return x
+        return x
+
+    def arange(ev, a, k):
+        vals = list(range(*[int(as_sym(x)) for x in a]))
+        return ArrV(0, (len(vals),), cells={(i,): sp.Integer(v) for i, v in enumerate(vals)})
+
+    def sort_(ev, a, k):
+        x = a[0]
+        if not (isinstance(x, ArrV) and len(x.shape) == 1):
+            raise AnalysisError("numpy.sort of something that is not a node vector")
+        key = lambda c: float(c.args[0]) if getattr(c, "func", None) == sp.Function("LOGN") else float(c)
+        vals = sorted((x.get((i,)) for i in range(x.shape[0])), key=key)
+        return ArrV(0, (len(vals),), cells={(i,): v for i, v in enumerate(vals)})
+
+    def unique(ev, a, k):
+        x = a[0]
+        vals = sorted({x.get((i,)) for i in range(x.shape[0])})
+        return ArrV(0, (len(vals),), cells={(i,): v for i, v in enumerate(vals)})
+
+    intr = {"scipy.interpolate.lagrange": capture("lagrange"), "scipy.interpolate.KroghInterpolator": capture("KroghInterpolator"),
+            "scipy.interpolate.PchipInterpolator": capture("PchipInterpolator"), "scipy.interpolate.Akima1DInterpolator": capture("Akima1DInterpolator"),
+            "scipy.interpolate.CubicHermiteSpline": capture("CubicHermiteSpline"), "scipy.interpolate.CubicSpline": capture("CubicSpline"),
+            "scipy.interpolate.UnivariateSpline": capture("UnivariateSpline"), "scipy.interpolate.InterpolatedUnivariateSpline": capture("UnivariateSpline"),
+            "numpy.flip": flip, "numpy.log": log, "numpy.ceil": ceil, "numpy.floor": floor, "math.ceil": ceil, "math.floor": floor, "builtins.int": int_,
+            "numpy.linspace": linspace, "numpy.rint": rint, "numpy.round": rint, "numpy.around": rint, "ndarray.astype": astype, "numpy.arange": arange,
+            "numpy.unique": unique, "numpy.sort": sort_}
+    ev = Ev(model, {}, intr, ctx=ctx)
+    name = HELPERS[method]
+    ref = f"{MG}:{name}"
+    f = model.func(ref)
+    params = [a.arg for a in f.args.args]
+    kwargs = {"order": sp.Integer(order)}
+    if "method" in params:
+        kwargs["method"] = method
+    vols = ArrV(0, (nv,), cells={(i,): sp.Integer(1000 - i) for i in range(nv)})
+    freqs = ArrV(0, (nv,), cells={(i,): sp.Integer(2000 + i) for i in range(nv)})
+    try:
+        ev.call_def(f, model.mods[MG], ref, [vols, freqs, VA], kwargs)
+    except _Captured as c:
+        def cells(v):
+            if not (isinstance(v, ArrV) and len(v.shape) == 1):
+                raise AnalysisError("the interpolant is constructed from something that is not a node vector")
+            return [v.get((i,)) for i in range(v.shape[0])]
+        return c.cls, cells(c.x), cells(c.y)
+    raise AnalysisError(f"{name} returns without constructing an interpolant")
+
+
+NODE_METHODS = ("lagrange", "krogh", "pchip", "akima")
+
+
+def r_node_selection(ctx, model):
+    """for every number of volumes 2..16 and every order 1..12: the selected nodes are distinct volumes in increasing ln V, each
+    paired with its own frequency, and the selection raises nothing"""
+    LOGN = sp.Function("LOGN")
+    for method in NODE_METHODS:
+        ref = f"{MG}:{HELPERS[method]}"
+        w = model.where(ref)
+        bad = []
+        n = 0
+        for nv in range(2, 17):
+            for order in range(1, 13):
+                n += 1
+                try:
+                    cls, xs, ys = fold_nodes(ctx, model, method, nv, order)
+                except RaisedV as e:
+                    bad.append(f"nv={nv}, order={order}: raises {e.exc_name}")
+                    continue
+                idx_x = [1000 - int(c.args[0]) if getattr(c, "func", None) == LOGN else None for c in xs]
+                idx_y = [int(c.args[0]) - 2000 if getattr(c, "func", None) == LOGN else None for c in ys]
+                if None in idx_x or None in idx_y:
+                    bad.append(f"nv={nv}, order={order}: nodes are not logarithms of the input volumes / frequencies")
+                elif idx_x != idx_y:
+                    bad.append(f"nv={nv}, order={order}: volume nodes {idx_x} paired with frequency nodes {idx_y}")
+                elif len(set(idx_x)) != len(idx_x):
+                    bad.append(f"nv={nv}, order={order}: repeated node(s) {idx_x} (the interpolant needs distinct abscissae)")
+                elif idx_x != sorted(idx_x, reverse=True):
+                    bad.append(f"nv={nv}, order={order}: nodes not in increasing ln V {idx_x}")
+                elif not idx_x:
+                    bad.append(f"nv={nv}, order={order}: no node selected")
+        ctx.check(not bad, f"{method}: node selection gives distinct, correctly paired nodes in increasing ln V for {n} (volume count, order) pairs", w,
+                  expected="distinct input volumes in increasing ln V, each with its own frequency; no exception", found="; ".join(bad[:4]) or f"{n} pairs as required",
+                  explanation=f"method {method!r}: for some number of input volumes and configured order the node selection fails or hands the interpolant "
+                              f"repeated / wrongly paired / wrongly ordered nodes: the calculation aborts or interpolates the wrong data ({'; '.join(bad[:2])})",
+                  key=f"{method}.node-selection")
+
+
 def analyse_triple(out, reg):
     """-> (problems list, interp used, x used)"""
     probs = []
@@ -323,6 +478,7 @@ RULE_TEXT = {
 }
 RULES = [
     ("R11.1-3", RULE_TEXT["R11.1-3"], r_helpers),
+    ("R11.9", "node selection on concrete volume counts 2..16 x orders 1..12: distinct, paired, increasing ln V, no exception", r_node_selection),
     ("R11.4-5", "interpolate_modes folded for every schema-valid method: (q, m) wiring, routing, Gamma skip, zero init, return order", r_loop),
     ("R11.6", "default interpolator dispatched; consumer wiring", r_dispatch),
     ("R11.7", "plot_modes draws omega / gamma / V dgamma/dV for n = 0 / 1 / 2", r_plot),
